@@ -80,7 +80,7 @@ func c08Render(tok string, mode srvMode, k int) string {
 
 func c08Run(ctx *core.Ctx) {
 	cs := c08Corpus()
-	ctx.Rule = fmt.Sprintf("(1) every octet offset of %d conversations (DATA, BDAT, AUTH exchanges; SMTP/LMTP) x {clean close, timeout error, reset error} x {one segment, per line}; (2) a STARTTLS conversation cut at every plaintext offset and at every offset of the inner TLS conversation; (3) server-initiated ends {QUIT, error threshold, over-long line, idle timeout (virtual deadline), backend panic inside Mail / NewSession / Rcpt / Data (early, and after the whole message was read, via DATA and via BDAT LAST) / Reset} x every suffix of length <=2 over %v already buffered in the closing command's segment x ReadTimeout {0, set} x {SMTP, LMTP}; each part also at GOMAXPROCS=1. Oracle: session-lifecycle automaton over the backend event log + goroutine table at the end of the run. Non-trivial: the connection ends while a session exists; distinct by full case.", len(cs), c08SuffixAlphabet)
+	ctx.Rule = fmt.Sprintf("(1) every octet offset of %d conversations (DATA, BDAT, AUTH exchanges; SMTP/LMTP) x {clean close, timeout error, reset error} x {one segment, per line}; (2) a STARTTLS conversation cut at every plaintext offset and at every offset of the inner TLS conversation; (3) server-initiated ends {QUIT, error threshold, over-long line, idle timeout (virtual deadline), backend panic inside Mail / NewSession / Rcpt / Data (early, and after the whole message was read, via DATA and via BDAT LAST) / Reset; Conn.Reject called from NewSession} x every suffix of length <=2 over %v already buffered in the closing command's segment x ReadTimeout {0, set} x {SMTP, LMTP}; each part also at GOMAXPROCS=1. Oracle: session-lifecycle automaton over the backend event log + goroutine table at the end of the run. Non-trivial: the connection ends while a session exists; distinct by full case.", len(cs), c08SuffixAlphabet)
 	ctx.Exhaustive = true
 	ctx.Assumptions = []string{"goroutine leak check is global: at the end of the run no goroutine with a go-smtp frame may remain", "known finding C08:data-begins-after-logout is matched only when the late Data call read zero octets"}
 	core.RunCases(ctx, func(emit func(c08Case)) {
@@ -127,13 +127,13 @@ func c08Run(ctx *core.Ctx) {
 			}
 		}
 		for _, mode := range []srvMode{modeSMTP, modeLMTPRcpt} {
-			for _, reason := range []string{"quit", "errors", "errors:FOO", "errors:ABCDE", "errors:", "errors:mixed", "longline", "timeout", "panic", "panic:NewSession", "panic:Rcpt", "panic:Data", "panic:Reset", "panic:BdatLast", "panic:DataAtEOF", "timeout-in-auth", "timeout-in-data"} {
+			for _, reason := range []string{"quit", "errors", "errors:FOO", "errors:ABCDE", "errors:", "errors:mixed", "longline", "timeout", "panic", "panic:NewSession", "panic:Rcpt", "panic:Data", "panic:Reset", "panic:BdatLast", "panic:DataAtEOF", "reject", "reject+session", "timeout-in-auth", "timeout-in-data"} {
 				for _, rt := range []bool{false, true} {
 					if strings.HasPrefix(reason, "timeout") && !rt {
 						continue
 					}
 					sufLen := 2
-					if strings.HasPrefix(reason, "panic:") {
+					if strings.HasPrefix(reason, "panic:") || strings.HasPrefix(reason, "reject+") {
 						sufLen = 1
 					}
 					core.Strings(c08SuffixAlphabet, sufLen, func(parts []string) {
@@ -553,6 +553,18 @@ func c08SrvEnd(ctx *core.Ctx, c c08Case) {
 			r.ReadAll(64)
 			return nil
 		}
+	case "reject", "reject+session":
+		// the backend turns the connection away from inside NewSession with Conn.Reject (421 and
+		// the connection is over), returning an error or - carelessly - a session all the same
+		rig.BE.H.NewSession = func(cn *smtp.Conn, sess int) error {
+			if strings.HasPrefix(cn.Hostname(), "busy") {
+				cn.Reject()
+				if c.Reason == "reject" {
+					return &smtp.SMTPError{Code: 421, EnhancedCode: smtp.EnhancedCode{4, 4, 5}, Message: "v#busy"}
+				}
+			}
+			return nil
+		}
 	case "panic:BdatLast", "panic:DataAtEOF":
 		// the backend reads the whole message and panics afterwards: the panic surfaces when the
 		// final reply is due
@@ -607,6 +619,9 @@ func c08SrvEnd(ctx *core.Ctx, c c08Case) {
 		nBefore = 2
 	case "panic:NewSession":
 		script = strings.Fields(c.Mode.hello())[0] + " panic.test\r\n"
+		nBefore = 1
+	case "reject", "reject+session":
+		script = strings.Fields(c.Mode.hello())[0] + " busy.test\r\n"
 		nBefore = 1
 	case "panic:Rcpt":
 		script = c.Mode.hello() + "\r\nMAIL FROM:<s@x.test>\r\nRCPT TO:<panic@x.test>\r\n"
